@@ -78,6 +78,8 @@ def judge(r) -> tuple[str, str]:
             return "ok", ""
         if out_fmt == "stats":
             return ("ok", "") if r["stdout"].strip() else ("bad", "no output for -o stats")
+        if "-C" in args and not r["stdout"].strip() and any("cache is up-to-date" in e.get("message", "") for e in ((r.get("trace") or {}).get("events") or [])):
+            return "ok", ""          # a cache hit prints nothing by design (C19)
         try:
             json.loads(r["stdout"])
         except Exception:  # noqa: BLE001
@@ -105,6 +107,7 @@ def main(tier: str) -> int:
     # (a) function bodies: the shared FunctionAnalyser run
     fa = fa_run.run(tier)
     fa_new, fa_known = [], []
+    unmodelled_by_class = [0]
     fa_outcomes = collections.Counter()
     for code, m in fa["cases"]:
         fa_outcomes[m["outcome"][0]] += 1
@@ -115,7 +118,10 @@ def main(tier: str) -> int:
         if cls in FA_RAISE_CLASSES | {"TypeError", "SyntaxError"} and not (code & 1) and not (code & 64):
             fa_known.append((cls, info))          # the model predicts exactly this exception: a modelled raise site
         elif code & 64:
-            fa_known.append((cls, info)) if cls == "SyntaxError" else fa_new.append(info)
+            # the function uses `sorted` / `collections.defaultdict` (custom analysers, outside the model): no prediction is
+            # available, so the exception class alone decides; counted separately in the evidence
+            (fa_known if cls in FA_RAISE_CLASSES | {"TypeError", "SyntaxError"} else fa_new).append((cls, info) if cls in FA_RAISE_CLASSES | {"TypeError", "SyntaxError"} else info)
+            unmodelled_by_class[0] += 1
         else:
             fa_new.append(info)
     for fp in fa["file_problems"]:
@@ -181,7 +187,7 @@ def main(tier: str) -> int:
         else:
             new.append(info)
     for cls, info in fa_known:
-        known["KF_C07_4" if cls in FA_RAISE_CLASSES else "KF_C07_3" if cls == "SyntaxError" else "KF_C07_2"].append(info)
+        known["KF_C07_4" if cls in FA_RAISE_CLASSES else "KF_C07_3" if cls == "SyntaxError" else "KF_C07_8"].append(info)
 
     for x in (fa_new + new)[:5]:
         V.violation({"property": PROP, **x})
@@ -208,7 +214,7 @@ def main(tier: str) -> int:
                 f"{len(G.CONSTRUCTS)} labelled module-level constructs (imports of every form incl. star / relative / missing / stdlib / extension modules, definitions with every decorator and parameter shape, definitions inside every compound statement, lambdas in every assignment shape, "
                 "classes: enum / NamedTuple / dataclass / nested / generic / body statements, every assignment target shape, match / try* / with / type aliases, non-ASCII identifiers, empty module) each alone, on the imported side, in random combinations and all benign ones together, "
                 f"x {len(G.OPTION_SETS)} option sets (-f 0/2, --strict, --threshold, -w, -o ir/stats/cacheable/silent, -H -T, -x, -F, -C, -C -r); fixed projects: re-export cycle, import cycle, one file under two module names, stdlib extension module at -f 3, deep nesting, 300-link attribute chain, 120-function call chain",
-        "function_outcomes": dict(fa_outcomes), "subprocess_runs": len(jobs), "subprocess_verdicts": dict(verdicts),
+        "function_outcomes": dict(fa_outcomes), "raises_in_unmodelled_functions_classified_by_exception_class_only": unmodelled_by_class[0], "subprocess_runs": len(jobs), "subprocess_verdicts": dict(verdicts),
         "traces_validated_against_impl": len(fa["cases"]), "disagreements_checked": sum(1 for c, m in fa["cases"] if (c & 1) and not (c & 64)),
         "crashes_new": len(fa_new) + len(new), "crashes_known_class": {k: len(v) for k, v in known.items()},
         "print_assumptions": pa, "broken_obligation_files": broken, "samples": [new[0] if new else (next(iter(known.values()))[0] if known else None)]},
